@@ -75,14 +75,19 @@ def fail(sig, **detail):
     """Record why the postcondition is false (read back by the replayer) and return False."""
     LAST.clear()
     LAST["sig"] = sig
-    try:
-        LAST["detail"] = {k: _short(v) for k, v in detail.items()}
-    except Exception:
+    if _is_tracing():
+        # under CrossHair nothing symbolic may outlive the path (a module global holding a symbolic str trips the engine's
+        # end-of-path bookkeeping); the replay run records the details
         LAST["detail"] = {}
+    else:
+        try:
+            LAST["detail"] = {k: _short(v) for k, v in detail.items()}
+        except Exception:
+            LAST["detail"] = {}
     import os
     if os.environ.get("VF_DEBUG"):
         try:
-            sys.stderr.write("VFFAIL %s %r\n" % (sig, LAST.get("detail")))
+            sys.stderr.write("VFFAIL %s %r\n" % (sig, sorted(detail)))
         except Exception:
             pass
     return False
